@@ -72,6 +72,10 @@ Fixpoint with_others {A} (pre l : list A) : list (A * list A) :=
 Definition nonneg_part (z : Z) : Z := if z >? 0 then z else 0.
 
 (* ---------------- C03: task constraints ---------------- *)
+(* every named task runs over a non-empty span that starts at a non-negative date (what C01 gives for a scheduled task
+   of positive duration; an unscheduled task sits on a negative point) *)
+Definition running (ts : list tinfo) : form := FAnd (map (fun t => FAnd [FLe (TC 0) (S_ t); FLt (S_ t) (E_ t)]) ts).
+
 Definition spec_C03_P (e : rcexpr) : list (string * form) :=
   match e with
   | CStartAt t v => [("start_at", whenact t (FEq (S_ t) (TC v)))]
@@ -97,6 +101,14 @@ Definition spec_C03_P (e : rcexpr) : list (string * form) :=
       ++ (match e with
           | COGroup _ _ _ k => map (fun '(a, b) => ("group_order", whenact2 a b (prec_rel k (E_ a) (S_ b)))) (consec_tasks ts)
           | _ => [] end)
+  | CContiguous ts =>
+      (* all named tasks running: pairwise disjoint, and every task except the one starting last is immediately
+         followed by another one *)
+      map (fun '(a, b) => ("contiguous_disjoint", FImp (running ts) (FOr [FLe (E_ a) (S_ b); FLe (E_ b) (S_ a)]))) (pairs_of ts)
+      ++ map (fun '(t, others) =>
+                ("contiguous_successor",
+                 FImp (running ts) (FOr [FAnd (map (fun u => FLe (S_ u) (S_ t)) others);
+                                         FOr (map (fun u => FEq (S_ u) (E_ t)) others)]))) (with_others [] ts)
   | CScheduleN ts n ivs k =>
       match k with
       | PbMin | PbExact => [("scheduleN_lower", FPbGe (map (fun t => inside_any t ivs) ts) n)]
@@ -109,16 +121,6 @@ Definition positive_duration (t : tinfo) : bool :=
 
 Definition spec_C03_S (e : rcexpr) : list (string * form) :=
   match e with
-  | CContiguous ts =>
-      (* all named tasks acting, positive durations: pairwise disjoint, and every task
-         except the one starting last is immediately followed by another one *)
-      if forallb positive_duration ts then
-        map (fun '(a, b) => ("contiguous_disjoint", FImp (allact ts) (FOr [FLe (E_ a) (S_ b); FLe (E_ b) (S_ a)]))) (pairs_of ts)
-        ++ map (fun '(t, others) =>
-                  ("contiguous_successor",
-                   FImp (allact ts) (FOr [FAnd (map (fun u => FLe (S_ u) (S_ t)) others);
-                                          FOr (map (fun u => FEq (S_ u) (E_ t)) others)]))) (with_others [] ts)
-      else []
   | CScheduleN ts n ivs k =>
       match k with
       | PbMax | PbExact => [("scheduleN_upper", FPbLe (map (fun t => inside_any t ivs) ts) n)]
@@ -155,6 +157,36 @@ Definition t_max a b := TIte (FLe a b) b a.
 Definition t_min a b := TIte (FLe a b) a b.
 Definition t_overlap (s e : term) (lo hi : Z) : term := t_max (TC 0) (TSub (t_min e (TC hi)) (t_max s (TC lo))).
 
+(* ---- periodic windows ----
+   A window (lo, hi) of a periodic constraint stands for the intervals [offset + k*period + lo, offset + k*period + hi),
+   k any integer, restricted to the active range [start, end).  per_free: the part of the busy interval that lies in the
+   active range meets none of them (closed form for 0 <= lo < hi <= period; C04_periodic.v proves it equivalent to the
+   pointwise statement). *)
+Definition per_free (bs be : term) (lo hi period start offset : Z) (end_ : option Z) : form :=
+  let bs' := t_max bs (TC start) in
+  let be' := match end_ with Some e => t_min be (TC e) | None => be end in
+  let sm := TMod (TSub bs' (TC offset)) (TC period) in
+  let d := TSub be' bs' in
+  FImp (FLt bs' be') (FOr [FLe (TAdd [sm; d]) (TC lo); FAnd [FLe (TC hi) sm; FLe (TAdd [sm; d]) (TC (lo + period))]]).
+Definition window_ok (period : Z) (iv : Z * Z) : bool := let '(lo, hi) := iv in (0 <=? lo) && (lo <? hi) && (hi <=? period).
+
+(* ---- consecutive busy intervals of a resource (ResourceTasksDistance, ResourceNonDelay) ----
+   busy_shape: every busy interval of the resource is either parked (both ends negative: not assigned) or assigned over
+   a non-empty span at a non-negative date; busy_disjoint: they are pairwise disjoint (what C02 gives on a worker);
+   consec_busy a b: both assigned, a starts first, nothing assigned starts in between. *)
+Definition busy_shape (o : rref) (l : list busyent) : form :=
+  let S x := BS o (ti_id (be_task x)) (be_maybe x) in let E x := BE o (ti_id (be_task x)) (be_maybe x) in
+  FAnd (map (fun x => FOr [FAnd [FLt (S x) (TC 0); FLt (E x) (TC 0)]; FAnd [FLe (TC 0) (S x); FLt (S x) (E x)]]) l).
+Definition busy_disjoint (o : rref) (l : list busyent) : form :=
+  let S x := BS o (ti_id (be_task x)) (be_maybe x) in let E x := BE o (ti_id (be_task x)) (be_maybe x) in
+  FAnd (map (fun '(x, y) => FOr [FLe (E x) (S y); FLe (E y) (S x)]) (pairs_of l)).
+Definition consec_busy (o : rref) (a b : busyent) (others : list busyent) : form :=
+  let S x := BS o (ti_id (be_task x)) (be_maybe x) in
+  FAnd [FLe (TC 0) (S a); FLt (S a) (S b);
+        FAnd (map (fun c => FNot (FAnd [FLe (TC 0) (S c); FLt (S a) (S c); FLt (S c) (S b)])) others)].
+Definition ordered_pairs {A} (l : list A) : list (A * A * list A) :=
+  flat_map (fun '(a, oa) => map (fun '(b, ob) => (a, b, ob)) (with_others [] oa)) (with_others [] l).
+
 Definition spec_C04_P (e : rcexpr) : list (string * form) :=
   match e with
   | CUnavailable r ivs =>
@@ -171,6 +203,36 @@ Definition spec_C04_P (e : rcexpr) : list (string * form) :=
         | KVar _ _ _ => []
         | _ => map (fun '(lo, hi) => ("interrupted_fixed", FOr [FLe (TC hi) (bsv w b); FLe (bev w b) (TC lo)])) ivs
         end) (all_busy r)
+  | CPeriodicUnavailable r ivs period start offset end_ =>
+      if (0 <? period) && forallb (window_ok period) ivs then
+        flat_map (fun '(lo, hi) =>
+          map (fun '(w, b) => ("periodic_unavailable", per_free (bsv w b) (bev w b) lo hi period start offset end_)) (all_busy r)) ivs
+      else []
+  | CPeriodicInterrupted r ivs period start offset end_ =>
+      if (0 <? period) && forallb (window_ok period) ivs then
+        flat_map (fun '(w, b) =>
+          match ti_kind (be_task b) with
+          | KVar _ _ _ => []
+          | _ => map (fun '(lo, hi) => ("periodic_interrupted_fixed", per_free (bsv w b) (bev w b) lo hi period start offset end_)) ivs
+          end) (all_busy r)
+      else []
+  | CNonDelay r =>
+      let o := own_w r in
+      map (fun '(a, b, others) =>
+        ("non_delay", FImp (FAnd [busy_shape o (rs_own r); busy_disjoint o (rs_own r); consec_busy o a b others])
+                           (FEq (BS o (ti_id (be_task b)) (be_maybe b)) (BE o (ti_id (be_task a)) (be_maybe a)))))
+          (ordered_pairs (rs_own r))
+  | CDistance r dist ivs mode =>
+      let o := own_w r in
+      map (fun '(a, b, others) =>
+        let sb := BS o (ti_id (be_task b)) (be_maybe b) in
+        let ea := BE o (ti_id (be_task a)) (be_maybe a) in
+        let inwin := match ivs with
+                     | Some l => FOr (map (fun '(lo, hi) => FAnd [FLe (TC lo) ea; FLe sb (TC hi)]) l)
+                     | None => FT end in
+        ("distance", FImp (FAnd [busy_shape o (rs_own r); busy_disjoint o (rs_own r); consec_busy o a b others; inwin])
+                          (cmp_sum mode (TSub sb ea) dist)))
+          (ordered_pairs (rs_own r))
   | CSameWorkers s1 s2 =>
       map (fun r => ("same_workers", FIff (FB (BSel (s_ref s1) r)) (FB (BSel (s_ref s2) r)))) (common_sel s1 s2)
   | CDistinctWorkers s1 s2 =>
@@ -311,6 +373,7 @@ Definition spec_C04_late_c (st : pstate) (e : rcexpr) : list (string * form) :=
         end) (late_busy st r)
   | _ => []
   end.
+
 Definition spec_C04_swept (st : pstate) := per_cons "C04" (spec_C04_late_c st) st.
 
 (* ================================================================== *)
@@ -559,10 +622,7 @@ Definition wf_constraint (c : nat) (opt : bool) (e : rcexpr) : bool :=
   | CUnavailable r ivs => has_busy r && negb (is_nil ivs)
   | CPeriodicUnavailable r ivs _ _ _ _ => has_busy r && negb (is_nil ivs)
   | CInterrupted r _ => has_busy r
-  | CPeriodicInterrupted r ivs period start _ end_ =>
-      has_busy r && forallb (fun '(lo, hi) => hi <=? period) ivs
-      && (negb ((start >? 0) || (match end_ with Some _ => true | None => false end))
-          || negb (match rs_units r with (_, []) :: _ => true | _ => false end))
+  | CPeriodicInterrupted r ivs period _ _ _ => has_busy r && forallb (fun '(lo, hi) => hi <=? period) ivs
   | CDistance r _ _ _ => 2 <=? Z.of_nat (List.length (rs_own r))
   | CIndBounds _ lo hi => negb (absent lo && absent hi)
   | _ => true
